@@ -450,6 +450,24 @@ func (c *Cluster) Leader() *Node {
 }
 
 // Leaders returns all running nodes that report Leader.
+// IsVoterNow: is nd a voter in the configuration `from` currently reports?
+func (c *Cluster) IsVoterNow(from, nd *Node) bool {
+	in := from.Cur()
+	if in == nil {
+		return false
+	}
+	f := in.r.GetConfiguration()
+	if f.Error() != nil {
+		return false
+	}
+	for _, s := range f.Configuration().Servers {
+		if string(s.ID) == nd.name {
+			return s.Suffrage == raft.Voter
+		}
+	}
+	return false
+}
+
 func (c *Cluster) Leaders() []*Node {
 	var out []*Node
 	for _, nd := range c.Nodes {
